@@ -38,6 +38,7 @@ fn gate(p: &Partial, _t: Tier) -> Result<(), String> {
     super::need(p, "get_icao:address-space", 9 * (1 << 24) - 100)?;
     super::need(p, "get_icao:payload-family", 10_000)?;
     super::need(p, "get_icao:region-pairs", 500)?;
+    super::need(p, "xor-neighbour", 10_000)?;
     super::need(p, "zero-address-dropped", 9)?;
     super::need(p, "reader-seam:row-key", 100_000)?;
     super::need(p, "step:other-rows-present", 10_000)?;
@@ -340,6 +341,13 @@ fn run(ctx: &mut Ctx) {
             ctx.violation(&format!("C03/reader/DF{df}"), &z.hex(), || format!("{}: address 0 must be dropped, got {:?}", z.hex(), o[0]), || json!({"kind": "reader", "hex": z.hex()}));
         }
     }
+    // (3') XOR-neighbour isolation: aircraft A is in the table; a frame arrives from an address B that
+    // differs from A by a "meaningful" XOR constant (one byte in any position - e.g. a BDS code -, the
+    // CRC syndrome of a single data bit, a single bit). B must get its own row and A must not change.
+    job += 1;
+    if ctx.mine(job) {
+        xor_neighbours(ctx);
+    }
     // (4) row isolation over model ROW with three aircraft
     run_row(ctx, &[], 3, 3);
     if thorough {
@@ -351,6 +359,83 @@ fn run(ctx: &mut Ctx) {
     ctx.sample(|| json!({"ROW history": ["A:DF4 31000ft", "B:TC19 v1", "C:DF20 BDS5,0"], "expected": "each frame touches only the row keyed by its own address"}));
     ctx.bound("addresses", "all 16777216 per format");
     ctx.out.exhaustive = true;
+}
+
+fn xor_neighbours(ctx: &mut Ctx) {
+    use crate::frames;
+    use crate::run::{join_lines, run_file};
+    use crate::snap::{new_table, snapshot};
+    let a: u32 = 0x4CA2D6;
+    // frames of B by format (address/parity formats and squitters), incl. Comm-B registers
+    let mk = |b: u32| -> Vec<(&'static str, Frame)> {
+        let alt = frames::ac13_for_alt(31000);
+        let sq = frames::id13_for_squawk(4521);
+        vec![
+            ("DF0", frames::df0(b, alt)),
+            ("DF4", frames::df4(b, alt)),
+            ("DF5", frames::df5(b, sq)),
+            ("DF16", frames::df16(b, alt, 0)),
+            ("DF20 empty", frames::df20(b, alt, 0)),
+            ("DF20 BDS1,0", frames::df20(b, alt, 0x10_0000_8000_0000)),
+            ("DF20 BDS1,7", frames::df20(b, alt, frames::mb_bds17(0xFFFFFF))),
+            ("DF21 BDS2,0", frames::df21(b, sq, frames::mb_bds20(frames::callsign_codes("XORNB")))),
+            ("DF20 BDS3,0", frames::df20(b, alt, frames::mb_bds30(1 << 13, 0, 0, 0, 0, 0))),
+            ("DF20 BDS4,0", frames::df20(b, alt, frames::mb_bds40(&frames::B40 { s_mcp: 1, mcp: 2000, s_fms: 1, fms: 2250, s_baro: 1, baro: 2132, s_mode: 1, mode: 2, s_src: 1, src: 1, ..Default::default() }))),
+            ("DF20 BDS5,0", frames::df20(b, alt, super::rowmodel::valid_bds50(false))),
+            ("DF21 BDS6,0", frames::df21(b, sq, super::rowmodel::valid_bds60(true))),
+            ("DF11", frames::df11(5, b, 0)),
+            ("DF17", frames::df17(5, b, frames::me_ident(4, 3, frames::callsign_codes("XORNB")))),
+        ]
+    };
+    let mut deltas: Vec<u32> = vec![];
+    for d in 1..=255u32 {
+        deltas.extend([d, d << 8, d << 16]);
+    }
+    // CRC syndromes of single data bits (56- and 112-bit frames)
+    for nbits in [56u32, 112] {
+        for k in 0..(nbits - 24) {
+            deltas.push(frames::crc24(1u128 << k, nbits - 24));
+        }
+    }
+    deltas.sort();
+    deltas.dedup();
+    for opts in [&[][..], &["-U"][..], &["-R"][..]] {
+        let cfg = Cfg::new(opts);
+        // the state of A alone (capability 5, all registers advertised, callsign, altitude)
+        let seed: Vec<Vec<u8>> = vec![
+            frames::df11(5, a, 0).hex().into_bytes(),
+            frames::df20(a, frames::ac13_for_alt(7000), frames::mb_bds17(0xFFFFFF)).hex().into_bytes(),
+            frames::df17(5, a, frames::me_ident(4, 3, frames::callsign_codes("ALPHA"))).hex().into_bytes(),
+            frames::df20(a, frames::ac13_for_alt(7000), super::rowmodel::valid_bds50(true)).hex().into_bytes(),
+        ];
+        let t0 = new_table();
+        let _ = run_file(&cfg, &join_lines(&seed), &t0);
+        let a_alone = snapshot(&t0);
+        for &d in &deltas {
+            let b = a ^ d;
+            if b == 0 {
+                continue;
+            }
+            for (name, f) in mk(b) {
+                let t = crate::snap::restore(&a_alone);
+                let o = run_file(&cfg, &join_lines(&[f.hex().into_bytes()]), &t);
+                let after = snapshot(&t);
+                ctx.eval();
+                ctx.count("xor-neighbour");
+                let a_after = after.iter().find(|r| r.key == a);
+                let b_row = after.iter().find(|r| r.key == b);
+                if !o.is_ok() || a_after != a_alone.first() || b_row.is_none() || after.len() != 2 {
+                    let hex = f.hex();
+                    ctx.violation(
+                        &format!("C03/xor-neighbour/{}", cfg.label()),
+                        &format!("{name} from {b:06X} (= {a:06X} xor {d:06X})"),
+                        || format!("{name} frame {hex} from {b:06X} while {a:06X} is tracked: rows afterwards {:X?}, row of {a:06X} unchanged: {}", after.iter().map(|r| r.key).collect::<Vec<_>>(), a_after == a_alone.first()),
+                        || json!({"kind": "xor", "hex": hex, "cfg": cfg.opts}),
+                    );
+                }
+            }
+        }
+    }
 }
 
 fn run_row(ctx: &mut Ctx, opts: &[&str], naircraft: usize, depth: usize) {
@@ -368,6 +453,34 @@ fn run_row(ctx: &mut Ctx, opts: &[&str], naircraft: usize, depth: usize) {
 
 fn replay(ctx: &mut Ctx, case: &Value) {
     match case.get("kind").and_then(|x| x.as_str()) {
+        Some("xor") => {
+            use crate::frames;
+            use crate::run::{join_lines, run_file};
+            use crate::snap::{new_table, snapshot};
+            let a: u32 = 0x4CA2D6;
+            let opts: Vec<String> = case.get("cfg").and_then(|c| c.as_array()).map(|a| a.iter().filter_map(|x| x.as_str().map(String::from)).collect()).unwrap_or_default();
+            let o: Vec<&str> = opts.iter().map(|s| s.as_str()).collect();
+            let cfg = Cfg::new(&o);
+            let hex = case.get("hex").and_then(|x| x.as_str()).unwrap_or("").to_string();
+            let seed: Vec<Vec<u8>> = vec![
+                frames::df11(5, a, 0).hex().into_bytes(),
+                frames::df20(a, frames::ac13_for_alt(7000), frames::mb_bds17(0xFFFFFF)).hex().into_bytes(),
+                frames::df17(5, a, frames::me_ident(4, 3, frames::callsign_codes("ALPHA"))).hex().into_bytes(),
+                frames::df20(a, frames::ac13_for_alt(7000), super::rowmodel::valid_bds50(true)).hex().into_bytes(),
+            ];
+            let t0 = new_table();
+            let _ = run_file(&cfg, &join_lines(&seed), &t0);
+            let a_alone = snapshot(&t0);
+            let t = crate::snap::restore(&a_alone);
+            let oc = run_file(&cfg, &join_lines(&[hex.clone().into_bytes()]), &t);
+            let after = snapshot(&t);
+            let b = Frame::from_hex(&hex).and_then(|f| ref_address(&f)).unwrap_or(0);
+            let ok = oc.is_ok() && after.iter().find(|r| r.key == a) == a_alone.first() && after.iter().any(|r| r.key == b) && after.len() == 2;
+            crate::run::say(&format!("{hex} (reference address {b:06X}) while {a:06X} is tracked, cfg [{}]: rows afterwards {:X?}; isolated: {ok}", cfg.label(), after.iter().map(|r| r.key).collect::<Vec<_>>()));
+            if !ok {
+                ctx.violation("C03/xor-neighbour", &hex, || "frame of a neighbouring address touched another row or got no row".into(), || case.clone());
+            }
+        }
         Some("icao") | Some("reader") => {
             let hex = case.get("hex").and_then(|x| x.as_str()).unwrap_or("").to_string();
             let Some(f) = Frame::from_hex(&hex) else {
